@@ -618,7 +618,9 @@ def _gen1(g, force=None, closable=False):
     if fn == "islice":
         n = g.int(1, 3)
         vals = [None, -1, 0, 1, 2, 3, 5, 8, 13, 40]
-        return {"fn": fn, "seqs": [seq(30)], "kinds": [kind()], "p": {"args": [g.choice(vals) for _ in range(n)]}}
+        lo = g.choice([0, 0, 8, 16, 24])        # long inputs too: several selected elements with start > 0 and step >= 3
+        return {"fn": fn, "seqs": [g.sample(st.lists(elem, min_size=lo, max_size=lo + 16))], "kinds": [kind()],
+                "p": {"args": [g.choice(vals) for _ in range(n)]}}
     if fn == "pairwise":
         return {"fn": fn, "seqs": [seq(20)], "kinds": [kind()], "p": {}}
     if fn == "product":
